@@ -167,8 +167,9 @@ pub fn sweep_c15(tier: &str, seed: u64, only: &str) -> (usize, Vec<String>) {
             // two faults: a parse error at q, and a multi-byte character a power-of-two-ish distance after it (error paths that cut
             // the remaining text at a fixed byte count must cut on a character boundary)
             if b.len() < 1200 {
-                for q in 0..b.len() {
-                    for d in [7usize, 8, 15, 16, 31, 32, 58, 59, 60, 61, 62, 63, 64, 65, 66, 127, 128, 255, 256] {
+                let qstep = if tier == "thorough" { 1 } else { 5 };
+                for q in (0..b.len()).step_by(qstep) {
+                    for d in 1usize..=260 {
                         if q + d > b.len() { continue; }
                         let mut m = b.clone();
                         m[q] = b'#';
@@ -177,6 +178,13 @@ pub fn sweep_c15(tier: &str, seed: u64, only: &str) -> (usize, Vec<String>) {
                         inputs.push(m);
                     }
                 }
+            }
+            // every prefix of a few variants that contain multi-byte characters (input ending INSIDE a character)
+            for _ in 0..3 {
+                let mut m = b.clone();
+                for _ in 0..4 { let ch = ["\u{e9}", "\u{20ac}", "\u{1f600}"][rng.below(3)].as_bytes().to_vec(); let at = rng.below(m.len() + 1); for (o, x) in ch.iter().enumerate() { m.insert(at + o, *x); } }
+                for k in 0..=m.len() { inputs.push(m[..k].to_vec()); }
+                for lead in [0xC2u8, 0xE2, 0xF0, 0xF4] { let mut t = b.clone(); t.push(lead); inputs.push(t); }
             }
             // line-level mutations: one row longer / shorter than the others (ragged matrices), a repeated line, a missing line
             let lines: Vec<&[u8]> = b.split_inclusive(|&c| c == b'\n').collect();
